@@ -70,7 +70,7 @@ struct DataLinkType<tins_type> { \
 TINS_MAKE_DATA_LINK_TYPE(EthernetII, DLT_EN10MB)
 TINS_MAKE_DATA_LINK_TYPE(Dot3, DLT_EN10MB)
 TINS_MAKE_DATA_LINK_TYPE(SLL, DLT_LINUX_SLL)
-TINS_MAKE_DATA_LINK_TYPE(Loopback, DLT_LOOP)
+TINS_MAKE_DATA_LINK_TYPE(Loopback, DLT_NULL)
 TINS_MAKE_DATA_LINK_TYPE(PPI, DLT_PPI)
 TINS_MAKE_DATA_LINK_TYPE(Dot11, DLT_IEEE802_11)
 TINS_MAKE_DATA_LINK_TYPE(RadioTap, DLT_IEEE802_11_RADIO)
